@@ -1147,3 +1147,13 @@ MUTANTS.append({"id": "C15-declared-type-not-stacked", "prop": "C15", "benign": 
 M("C15-hex-literal-through-stoull", "C15", "src/cppparser/cppPreprocessor.cxx",
   "    result.u.integer = strtol(num.c_str(), nullptr, 16);", "    result.u.integer = std::stoull(num, nullptr, 16);",
   expect="R15.15|CPPPreprocessor::get_number|stoull")
+
+M("C17-canonical-resolves-directory-only", "C17", "src/dtoolutil/filename.cxx",
+  "  if (realpath(c_str(), newpath) != nullptr) {\n    Filename newpath_fn(newpath);", "  if (realpath(get_dirname().c_str(), newpath) != nullptr) {\n    Filename newpath_fn(Filename(newpath), get_basename());",
+  expect="R17.6|make_canonical|realpath-of-whole-name")
+M("C09-rescan-without-undefined-mode", "C09", "src/cppparser/cppPreprocessor.cxx",
+  "          expand_manifests(result, expand_undefined, nested_ignores);", "          expand_manifests(result, false, nested_ignores);",
+  expect="R09.5|expand_manifests|rescan#0|forwards-mode")
+M("C20-unique-name-lookup-needs-fptrs", "C20", "src/interrogatedb/interrogateDatabase.cxx",
+  "  if (index_offset >= 0) {\n    return def->first_index + index_offset;", "  if (index_offset >= 0 && index_offset < def->num_fptrs) {\n    return def->first_index + index_offset;",
+  expect="R20.9|InterrogateDatabase::get_wrapper_by_unique_name|reads-fptr-table")
